@@ -49,6 +49,63 @@ def after_failure(chk, suite, enc_cases):
                 return
 
 
+class FailingSource(object):
+    """a stream that delivers [data] and then fails like a socket that timed out / would block / was reset"""
+    def __init__(self, data, exc):
+        self.data, self.pos, self.exc = data, 0, exc
+
+    def read(self, n=None):
+        if self.pos >= len(self.data):
+            raise self.exc
+        n = len(self.data) - self.pos if n is None else n
+        r = self.data[self.pos:self.pos + n]
+        self.pos += len(r)
+        return r
+
+    recv = read
+
+
+class GoodSource(FailingSource):
+    def read(self, n=None):
+        n = len(self.data) - self.pos if n is None else n
+        r = self.data[self.pos:self.pos + n]
+        self.pos += len(r)
+        return r
+
+    recv = read
+
+
+def after_read_failure(chk, suite, dec_cases):
+    """dec_cases: (label, read(stream), encoded bytes, expected (value, consumed)).  A decoder is first run on a stream that
+    fails part-way (timeout, would-block, reset) - the error is the stream's -, that stream is dropped, and the same decoder
+    is then run on a new, healthy stream (which CPython usually allocates at the same address): nothing of the abandoned
+    read may show."""
+    import socket
+    for label, read, data, exp in dec_cases:
+        for k in sorted(set([0, 1, len(data) // 2, max(0, len(data) - 1)])):
+            if k >= len(data):
+                continue
+            for exc in (socket.timeout('timed out'), BlockingIOError(11, 'would block'), ConnectionResetError(104, 'reset')):
+                src = FailingSource(data[:k], exc)
+                try:
+                    read(src)
+                except Exception:
+                    pass
+                del src
+                good = GoodSource(data + b'\x5a', None)
+                chk.count(suite, ['after-read-failure', label, data.hex()[:60], k, type(exc).__name__], True)
+                try:
+                    got = (read(good), good.pos)
+                except Exception as e:
+                    got = 'raised %s' % type(e).__name__
+                if got != exp:
+                    chk.violation(suite, 'after-read-failure:%s:%s' % (label, data.hex()[:40]),
+                                  {'case': {'type': label, 'bytes': data.hex()[:300], 'first_stream_failed_after': k, 'failure': type(exc).__name__}, 'expected': repr(exp)[:200], 'observed': repr(got)[:200]},
+                                  '%s: after a read on another stream that failed with %s after %d bytes, decoding %s on a new stream gives %s; expected %s' % (
+                                      label, type(exc).__name__, k, data.hex()[:30], repr(got)[:60], repr(exp)[:60]))
+                    return
+
+
 def threaded(chk, suite, cases, nthreads=4, seconds=0.6):
     """cases: (label, call, expected).  Every thread runs all the cases (own rotation) again and again for [seconds] with a
     very small switch interval; any result that differs from the sequential one is reported."""
